@@ -248,7 +248,16 @@ func (fr *Frame) locLoad(l *Loc, st *State, pos token.Pos) Term {
 	}
 	// values read from memory refer to allocated objects only
 	if l.Cell == nil && !fr.pure && len(vc.defScopes) == 0 {
-		if wf := vc.wfValue(v, l.Type, st); wf.S != "true" {
+		// A heap that has not been written since entry holds only references
+		// to objects that existed at entry.
+		alloc := vc.allocTerm(st)
+		hn := vc.ss.HeapName(l.Root)
+		if e, ok := vc.entryHeaps[hn]; ok && vc.alloc0.S != "" {
+			if cur, ok2 := st.heaps[hn]; !ok2 || cur.S == e.S {
+				alloc = vc.alloc0
+			}
+		}
+		if wf := vc.wfValueA(v, l.Type, alloc, 0); wf.S != "true" {
 			st.Assume(wf)
 		}
 	}
@@ -423,11 +432,61 @@ func closureInlinable(mc *ssa.MakeClosure) bool {
 			if x.Call.Value != mc {
 				return false
 			}
+		case *ssa.Store:
+			// stored once into a local that is only ever called
+			a, ok := x.Addr.(*ssa.Alloc)
+			if !ok || x.Val != mc || !closureCell(a) {
+				return false
+			}
 		default:
 			return false
 		}
 	}
 	return true
+}
+
+// closureCell: a local variable that holds a function literal and is only called.
+func closureCell(a *ssa.Alloc) bool {
+	refs := a.Referrers()
+	if refs == nil {
+		return false
+	}
+	stores := 0
+	for _, r := range *refs {
+		switch x := r.(type) {
+		case *ssa.DebugRef:
+		case *ssa.Store:
+			if x.Addr != a {
+				return false
+			}
+			if _, ok := x.Val.(*ssa.MakeClosure); !ok {
+				return false
+			}
+			stores++
+		case *ssa.UnOp:
+			if x.Op != token.MUL {
+				return false
+			}
+			lr := x.Referrers()
+			if lr == nil {
+				return false
+			}
+			for _, u := range *lr {
+				switch c := u.(type) {
+				case *ssa.DebugRef:
+				case *ssa.Call:
+					if c.Call.Value != x {
+						return false
+					}
+				default:
+					return false
+				}
+			}
+		default:
+			return false
+		}
+	}
+	return stores == 1
 }
 
 func isQuantIntrinsic(f *ssa.Function) bool {
@@ -490,6 +549,15 @@ func (fr *Frame) execInstr(ins ssa.Instruction, st *State) *State {
 	case *ssa.Store:
 		addr := fr.val(x.Addr)
 		v := fr.val(x.Val)
+		if v.Clo != nil {
+			if a, ok := x.Addr.(*ssa.Alloc); ok && closureCell(a) {
+				if fr.cloCells == nil {
+					fr.cloCells = map[*ssa.Alloc]*Closure{}
+				}
+				fr.cloCells[a] = v.Clo
+				return st
+			}
+		}
 		if v.Clo != nil || (v.Loc != nil && !v.IsT) {
 			fail("%s: storing a closure/location value is outside the subset", vc.posOf(x.Pos()))
 		}
@@ -663,6 +731,10 @@ func (fr *Frame) execUnOp(x *ssa.UnOp, st *State) *State {
 	vc := fr.vc
 	switch x.Op {
 	case token.MUL:
+		if a, ok := x.X.(*ssa.Alloc); ok && fr.cloCells[a] != nil {
+			fr.vals[x] = Val{Clo: fr.cloCells[a]}
+			return st
+		}
 		addr := fr.val(x.X)
 		l := fr.asLoc(addr, pointee(x.X.Type()))
 		fr.vals[x] = TV(fr.locLoad(l, st, x.Pos()))
@@ -1031,7 +1103,7 @@ func (fr *Frame) raise(st *State, val Term, pos token.Pos, why string) {
 	if fr.vc.dry > 0 && fr.parent == nil {
 		return
 	}
-	fr.panics = append(fr.panics, panicState{st: st, val: val})
+	fr.panics = append(fr.panics, panicState{st: st, val: val, why: why + " at " + fr.vc.posOf(pos)})
 }
 
 func typeString(t types.Type) string { return shortTypeName(t) }
